@@ -795,7 +795,7 @@ def cases_error_rate(ctx):
         for batch in range(1, len(c) + 2):
             for rule in ER_RULES:
                 for (use_map, mode) in combos:
-                    for (p, s) in ([affixes[k % 4]] if ctx.quick else [affixes[k % 16], affixes[(k * 7 + 5) % 16]]):
+                    for (p, s) in ([affixes[k % 4]] if ctx.quick else [affixes[(k * 7 + k // 16) % 16]]):
                         k += 1
                         case = dict(prefix=p, suffix=s, utts=_name_utts(c, k), batch=batch, id2token=use_map, mode=mode,
                                     layout=["parent", "two"][k % 2], shape=[1, 3][(k // 2) % 2], **rule)
@@ -1306,6 +1306,26 @@ def cases_workers(ctx):
 
 # ---------------------------------------------------------------------------------------------------
 
+def _stable(fn):
+    """an exception escaping a command is a contract failure; report it without the random temp-dir name so that
+    the same failure always produces the same message (and the same replay file)"""
+    import functools
+    import traceback
+
+    @functools.wraps(fn)
+    def wrapped(case):
+        try:
+            return fn(case)
+        except Exception as e:
+            tb = " | ".join(l.strip() for l in traceback.format_exc(limit=-3).splitlines()[1:-1])
+            msg = "checker raised %s: %s | %s" % (type(e).__name__, e, tb)
+            return re.sub(re.escape(tempfile.gettempdir()) + r"/c17\w+", "<tmp>", msg)[:1500]
+
+    return wrapped
+
+
+check_roundtrip, check_error_rate, check_subset = _stable(check_roundtrip), _stable(check_error_rate), _stable(check_subset)
+check_moments, check_workers = _stable(check_moments), _stable(check_workers)
 CHECKERS = {
     "C17.cli.roundtrip": check_roundtrip,
     "C17.cli.error_rate": check_error_rate,
@@ -1372,7 +1392,7 @@ def run_bounded(ctx):
                            "ali: all label sequences over {0,1,2} of length 1..%d; token partitions: <=3 runs over 4 (token,length) pairs%s")
                     % (PREFIXES, SUFFIXES, "{10,25}" if q else "{10,25,2.5,0.0625}", 4 if q else 6, "" if q else "; plus 4000 seeded random corpora (<=4 utterances)"),
                     text="file -> token dir -> file gives the original transcripts (times within one frame), ali -> segments -> ali is the identity; intermediate dirs hold exactly prefix+utt+suffix with the documented tensors",
-                    nontrivial=lambda c: (c["prefix"], c["suffix"]) != ("", ".pt") and len(c["utts"]) > 0, chunk=32,
+                    nontrivial=lambda c: (c["prefix"], c["suffix"]) != ("", ".pt") and len(c["utts"]) > 0, chunk=32, budget_s=None if q else 200,
                     functions=[M + x for x in ("trn_to_torch_token_data_dir", "torch_token_data_dir_to_trn", "ctm_to_torch_token_data_dir", "torch_token_data_dir_to_ctm",
                                                "textgrids_to_torch_token_data_dir", "torch_token_data_dir_to_textgrids", "torch_ali_data_dir_to_torch_token_data_dir",
                                                "torch_token_data_dir_to_torch_ali_data_dir", "_DirectoryDataset.__init__", "_save_transcripts_to_dir_do_work")])
@@ -1382,26 +1402,26 @@ def run_bounded(ctx):
                           "ref+hyp under one parent or as two dirs, (R,) and (R,3) tensors, a one-sided utterance with --warn-missing; unit costs; divisor non-zero%s"
                           % ((4, 7, 4, "") if q else (16, 31, 9, "; plus 6000 seeded random corpora (<=7 utterances, lengths <=7)")),
                     text="printed figure = sum of Levenshtein distances / sum of reference lengths after replace-then-ignore on both sides (or the per-utterance figures), independent of the batch size",
-                    nontrivial=lambda c: c["batch"] < len(c["utts"]) or bool(c.get("replace") or c.get("ignore")), chunk=32,
+                    nontrivial=lambda c: c["batch"] < len(c["utts"]) or bool(c.get("replace") or c.get("ignore")), chunk=32, budget_s=None if q else 200,
                     functions=[M + "compute_torch_token_data_dir_error_rates", M + "_load_transcripts_from_data_dir"])
     if want("C17.cli.subset"):
         ctx.bounded("C17.cli.subset", check_subset, cases_subset(ctx),
                     bound="%d affix pairs, %d directories of 0..%d utterances (length ties, ali/ref missing or with extras), all 12 selection flags with n in 0..N+1 and %d ratios, lists with unknown ids, "
                           "--only, hard link/--copy/--symlink, custom sub-directory names%s" % ((4, 5, 6, 5, "") if q else (16, 6, 11, 16, "; plus 3000 seeded random directories")),
                     text="destination holds exactly the files of the requested utterances (documented order rules), byte-identical to the source, source untouched; --rand-* by count and seed-determinism",
-                    nontrivial=lambda c: len(c["feats"]) > 1, chunk=32, functions=[M + "subset_torch_spect_data_dir", M + "_copy_spect_data_dir_do_work"])
+                    nontrivial=lambda c: len(c["feats"]) > 1, chunk=32, budget_s=None if q else 200, functions=[M + "subset_torch_spect_data_dir", M + "_copy_spect_data_dir_do_work"])
     if want("C17.cli.moments"):
         ctx.bounded("C17.cli.moments", check_moments, cases_moments(ctx),
                     bound="%d affix pairs (rotated over the enumeration); ali: all label sequences over {0,1,2} up to length %d pooled in threes; ref: all 1..3-subsets of 7 segments (valid, empty, missing, inverted) + boundary-less files; "
                           "--bessel x --std x --exclude-ids x --precision, stdout or file, --strict; mvn: 25 integer tables pooled, --bessel, --id2gid%s" % ((5, 4, "") if q else (16, 5, "; plus 4000 seeded random directories")),
                     text="printed mean (variance|std) and stored mean/std equal the exact rational recount over all selected files",
-                    chunk=32, functions=[M + "print_torch_ali_data_dir_length_moments", M + "print_torch_ref_data_dir_length_moments", M + "_do_mv_printing",
+                    chunk=32, budget_s=None if q else 200, functions=[M + "print_torch_ali_data_dir_length_moments", M + "print_torch_ref_data_dir_length_moments", M + "_do_mv_printing",
                                          M + "compute_mvn_stats_for_torch_feat_data_dir"])
     if want("C17.cli.workers"):
         ctx.bounded("C17.cli.workers", check_workers, cases_workers(ctx),
                     bound=("the 12 commands that take --num-workers, 5 utterances, num-workers {0,1,2}, default chunking, one affix pair each" if q else
                            "the 12 commands that take --num-workers, 1 and 5 utterances, 2 affix pairs each, num-workers {0,1,3}, --mp-chunk-size {default,1,2}"),
-                    text="identical output files (tensor-wise) and printed figures for every worker count", chunk=1,
+                    text="identical output files (tensor-wise) and printed figures for every worker count", chunk=1, budget_s=None if q else 200,
                     functions=[M + "_multiprocessor_pattern_generator", M + "_worker_func", M + "_load_transcripts_from_data_dir", M + "chunk_torch_spect_data_dir"])
     ctx.replay_known_witnesses()
     ctx.assume("times compare within one frame (frame-shift-ms) plus half a unit of the last printed decimal; float tolerance 1e-6 relative on the frame",
